@@ -243,16 +243,24 @@ def digitsVal : Str → Nat → Option Nat
     | some d => digitsVal cs (acc * 10 + d)
     | none => none
 
-/-- decimal literals `12`, `12.`, `12.5`, `.5` → (mantissa, number of decimals).
-    (Python's `float()` also accepts exponents, `inf`, `nan`, underscores, signs: outside the grammar.) -/
+/-- Python's `float` accepts single underscores between two digits (`3_2` is 32): no leading, trailing or doubled `_` -/
+def underscoresOK (s : Str) : Bool :=
+  s.head? != some '_' && s.getLast? != some '_' && !contains ['_', '_'] s
+
+def dropUnderscores (s : Str) : Str := s.filter (fun c => c != '_')
+
+/-- decimal literals `12`, `12.`, `12.5`, `.5`, `1_000.2_5` → (mantissa, number of decimals).
+    (Python's `float()` also accepts exponents, `inf`, `nan`, signs: outside the grammar.) -/
 def parseLit (s : Str) : Option (Nat × Nat) :=
   match s with
   | [] => none
   | c :: _ =>
     if !(c.isDigit || c == '.') then none
     else match splitOn s ['.'] with
-    | [a] => if a.isEmpty then none else (digitsVal a 0).map (fun m => (m, 0))
-    | [a, b] => if a.isEmpty && b.isEmpty then none else (digitsVal (a ++ b) 0).map (fun m => (m, b.length))
+    | [a] => if a.isEmpty || !underscoresOK a then none else (digitsVal (dropUnderscores a) 0).map (fun m => (m, 0))
+    | [a, b] =>
+      if (a.isEmpty && b.isEmpty) || !underscoresOK a || !underscoresOK b then none
+      else (digitsVal (dropUnderscores a ++ dropUnderscores b) 0).map (fun m => (m, (dropUnderscores b).length))
     | _ => none
 
 /-! ## The track: coordinates, timestamps (as epoch seconds) and the feature table -/
